@@ -657,9 +657,8 @@ Proof.
         -- destruct (rid =? 0); inversion H; subst. exact W.
       * destruct (rid =? 0); inversion H; subst. exact W.
     + (* a call that fails its local validation *)
-      destruct (s_connected s).
-      * cbv zeta in H. destruct (negb (rid =? s_next s + 1)); inversion H; subst. exact WNEXT.
-      * destruct (rid =? 0); inversion H; subst. exact W.
+      destruct (negb (rid =? 0)); [discriminate|].
+      destruct (s_connected s); inversion H; subst; [exact WNEXT|exact W].
   - (* RouterMsg *)
     unfold step_router in H. destruct (negb (s_connected s)); [discriminate|].
     assert (R : forall rq, step_reply s rq m = Ok s' outs -> WF s').
@@ -1415,9 +1414,8 @@ Proof.
         -- apply PLAIN. exact H.
         -- destruct (rid =? 0); inversion H; subst. exact HJ.
       * destruct (rid =? 0); inversion H; subst. exact HJ.
-    + destruct (s_connected s).
-      * cbv zeta in H. destruct (negb (rid =? s_next s + 1)); inversion H; subst. eapply J_same; eauto.
-      * destruct (rid =? 0); inversion H; subst. exact HJ.
+    + destruct (negb (rid =? 0)); [discriminate|].
+      destruct (s_connected s); inversion H; subst; [eapply J_same; eauto|exact HJ].
   - (* RouterMsg *)
     unfold step_router in H. destruct (negb (s_connected s)); [discriminate|].
     assert (R : forall rq, step_reply s rq m = Ok s' outs -> J s').
